@@ -146,7 +146,16 @@ def r2_folding(a, tier):
     # table normalisation sites
     gi = a.p.func('tatsu.peg.base.Grammar.__init__')
     pc = a.p.func('tatsu.config.ParserConfig.__post_init__')
-    for fn, cond_names in ((gi, ('self.config.ignorecase', 'config.ignorecase')), (pc, ('self.ignorecase',))):
+    # Grammar.__init__: decided by interpretation (whatever helper does the folding): the table it ends with is upper-case iff ignorecase
+    for ic_ in (False, True):
+        table_ = _grammar_keyword_table(a, ic_, ('if', 'Else'))
+        want_ = {'IF', 'ELSE'} if ic_ else {'if', 'Else'}
+        ok_ = table_ is not None and set(table_) == want_
+        rep.add({'table_built_by': gi.qualname, 'ignorecase': ic_, 'declared': ['if', 'Else'], 'table': sorted(table_) if table_ is not None else None, 'ok': ok_})
+        if not ok_:
+            rep.fail(gi.qualname, 'table-fold', f'{gi.qualname} with ignorecase={ic_} builds the keyword table {sorted(table_) if table_ is not None else None} from the declared '
+                     f'keywords if, Else; required {sorted(want_)}: the candidate is upper-cased under ignorecase, so no keyword can match otherwise', gi.loc)
+    for fn, cond_names in ((pc, ('self.ignorecase',)),):
         ok = False
         for n in walk_no_defs(fn.node):
             if isinstance(n, ast.If):
@@ -362,6 +371,25 @@ def r4_accepted_names_unchanged(a, tier):
 def r5_calls_keep_their_rule(a, tier):
     from .c01_optimizer import calls_keep_their_rule
     return calls_keep_their_rule(a, 'C11.R5')
+
+
+def _grammar_keyword_table(a, ic: bool, declared):
+    """the keyword table Grammar.__init__ ends with (interpreted on a stand-in configuration), or None"""
+    from ..minieval import Unsupported
+    from ..modelinterp import Bound, Hook, ModelInterp, Stub
+    G, PC = 'tatsu.peg.base.Grammar', 'tatsu.config.ParserConfig'
+    fn = a.ct.lookup(G, '__init__')
+    cfg = Stub(PC, ignorecase=ic, keywords=(), name=None, source=None)
+    cfg._attrs['hard_override'] = Hook(lambda **k: cfg)
+    cfg._attrs['override'] = Hook(lambda **k: cfg)
+    me = Stub(G, _resolve_name=Hook(lambda n: n or 'G'), initialize=Hook(lambda *x, **k: None), config=cfg)
+    it = ModelInterp(a, {'ParserConfig': Hook(lambda *x, **k: cfg, q=PC, new=Hook(lambda *x, **k: cfg))})
+    try:
+        it.call_bound(Bound(me, fn), ['G', ()], {'config': cfg, 'keywords': tuple(declared)})
+    except Unsupported as e:
+        raise AnalysisError(f'C11.R2: cannot interpret Grammar.__init__: {e}') from e
+    t = me._attrs.get('keywords')
+    return set(t) if isinstance(t, (tuple, list, set, frozenset)) else None
 
 
 def r6_table_complete(a, tier):
